@@ -430,6 +430,8 @@ pub struct EnumSub<T> {
     pub items: Box<dyn Fn(&Ctx) -> Vec<T> + Send + Sync>,
     pub check: Box<CheckFn<T>>,
     pub exhaustive: bool,
+    /// per-item no-progress limit for this sub-check (default: the context's hang_secs)
+    pub hang_secs: Option<u64>,
 }
 
 impl<T> EnumSub<T>
@@ -447,7 +449,12 @@ where
             items: Box::new(items),
             check: Box::new(check),
             exhaustive,
+            hang_secs: None,
         }
+    }
+    pub fn with_hang_secs(mut self, s: u64) -> Self {
+        self.hang_secs = Some(s);
+        self
     }
     pub fn boxed(self) -> Box<dyn Sub> {
         Box::new(self)
@@ -474,11 +481,20 @@ where
         let next = AtomicU64::new(0);
         let stop = AtomicBool::new(false);
         let out: Mutex<(Stats, Option<(usize, String)>)> = Mutex::new((Stats::default(), None));
+        // per worker: (heartbeat in ms since start + 1, index of the item being evaluated + 1)
+        let beats: Vec<(AtomicU64, AtomicU64)> = (0..shards).map(|_| (AtomicU64::new(0), AtomicU64::new(0))).collect();
+        let finished = AtomicU64::new(0);
         std::thread::scope(|scope| {
-            for _ in 0..shards {
+            for t in 0..shards {
+                let beats = &beats;
+                let finished = &finished;
+                let next = &next;
+                let stop = &stop;
+                let out = &out;
+                let items = &items;
                 std::thread::Builder::new()
                     .stack_size(64 << 20)
-                    .spawn_scoped(scope, || {
+                    .spawn_scoped(scope, move || {
                         let mut st = Stats::default();
                         let mut fail: Option<(usize, String)> = None;
                         loop {
@@ -490,6 +506,8 @@ where
                                 break;
                             }
                             for k in i..(i + 64).min(n) {
+                                beats[t].1.store(k as u64 + 1, Ordering::Relaxed);
+                                beats[t].0.store(t0.elapsed().as_millis() as u64 + 1, Ordering::Relaxed);
                                 st.eval();
                                 if let Err(m) = no_panic(|| (self.check)(&items[k], &mut st)) {
                                     fail = Some((k, m));
@@ -501,6 +519,7 @@ where
                                 break;
                             }
                         }
+                        beats[t].0.store(0, Ordering::Relaxed);
                         let mut o = out.lock().unwrap();
                         o.0.merge(st);
                         if let Some((k, m)) = fail {
@@ -508,8 +527,32 @@ where
                                 o.1 = Some((k, m));
                             }
                         }
+                        finished.fetch_add(1, Ordering::Relaxed);
                     })
                     .expect("spawn");
+            }
+            // watchdog: an item that makes no progress cannot be interrupted; report and leave
+            loop {
+                std::thread::sleep(Duration::from_millis(100));
+                if finished.load(Ordering::Relaxed) as usize == shards {
+                    break;
+                }
+                let now = t0.elapsed().as_millis() as u64;
+                for t in 0..shards {
+                    let b = beats[t].0.load(Ordering::Relaxed);
+                    let k = beats[t].1.load(Ordering::Relaxed);
+                    let limit = self.hang_secs.unwrap_or(ctx.hang_secs);
+                    if b > 0 && k > 0 && now.saturating_sub(b) > limit * 1000 {
+                        let f = Failure {
+                            sub: self.name.to_string(),
+                            msg: format!("HANG: one case made no progress for {} s", limit),
+                            case: serde_json::to_value(&items[k as usize - 1]).unwrap_or(Value::Null),
+                            hang: true,
+                        };
+                        HANG_SLOT.lock().unwrap().replace(f);
+                        (HANG_HANDLER.lock().unwrap().as_ref().expect("hang handler"))();
+                    }
+                }
             }
         });
         let (stats, fail) = out.into_inner().unwrap();
